@@ -597,6 +597,7 @@ func (r *run) flow(op map[string]any, ln *Line) {
 	srv := srvRec.AsStorage()
 	nodeInner, _ := inmem.New(ctx)
 	nodeRec := world.NewRecStorage(nodeInner, false)
+	srvRec.Retain, nodeRec.Retain = true, true
 	node := nodeRec.AsStorage()
 	secrets := map[string][]byte{}
 	add := func(n string, b []byte) {
@@ -640,6 +641,7 @@ func (r *run) flow(op map[string]any, ln *Line) {
 		fail(err)
 		return
 	}
+	preCreds := proto.Clone(creds).(*types.NodeCredentials) // the node's credentials as they are before any response is handled
 	if name == "dial" || name == "dialtoken" {
 		// registration driven by protocol.Dial against a real InterceptingListener: the node's first dial fetches
 		// and stores its credentials, then authenticates
@@ -799,6 +801,23 @@ func (r *run) flow(op map[string]any, ln *Line) {
 			return
 		}
 	}
+	if name == "tokenRefused" {
+		// the registered node presents a second, valid activation token: the token is consumed and the fetch refused
+		_, tok2, err := registration.CreateServerLedActivationToken(ctx, srv, &types.ServerLedRegistrationRequest{}, sopts...)
+		if err != nil {
+			fail(err)
+			return
+		}
+		req2, err := preCreds.CreateFetchNodeCredentialsRequest(ctx, nodeenrollment.WithActivationToken(tok2))
+		if err != nil {
+			fail(err)
+			return
+		}
+		if resp2, err := registration.FetchNodeCredentials(ctx, srv, req2, sopts...); err == nil && resp2 != nil && len(resp2.EncryptedNodeCredentials) > 0 {
+			fail(fmt.Errorf("a second token enrolled an already registered key"))
+			return
+		}
+	}
 	found := map[string]bool{}
 	count := 0
 	for _, rs := range []*world.RecStorage{srvRec, nodeRec} {
@@ -807,6 +826,20 @@ func (r *run) flow(op map[string]any, ln *Line) {
 				continue
 			}
 			count++
+			// what a write-behind back end would serialise after Store has returned: the same object, later
+			var late []byte
+			if o.Msg != nil {
+				late, _ = proto.Marshal(o.Msg)
+			}
+			for n, s := range secrets {
+				if strings.HasSuffix(n, ".nonce") && o.Type != "NodeCredentials" {
+					continue
+				}
+				if bytes.Contains(late, s) && !bytes.Contains(o.Bytes, s) {
+					nn := strings.Replace(strings.Replace(n, "node2.", "node.", 1), "server2.", "server.", 1)
+					found[o.Type+":"+nn+"(object-changed-after-store)"] = true
+				}
+			}
 			for n, s := range secrets {
 				// the node-side registration nonce is a secret of the node's own record only: the server
 				// record necessarily holds the nonce it was authorised with
